@@ -882,3 +882,175 @@ func Apps(roots []*Term, fn string) []*Term {
 	}
 	return out
 }
+
+// ---- mathematical integers (ghost "wide" values)
+
+const SInt = "Int"
+
+func IntConst(v *big.Int) *Term {
+	var op string
+	if v.Sign() < 0 {
+		op = "(- " + new(big.Int).Neg(v).String() + ")"
+	} else {
+		op = v.String()
+	}
+	t := B.mk(op, SInt)
+	return t
+}
+
+func IntAdd(a, b *Term) *Term { return B.mk("+", SInt, a, b) }
+func IntSub(a, b *Term) *Term { return B.mk("-", SInt, a, b) }
+func IntMul(a, b *Term) *Term { return B.mk("*", SInt, a, b) }
+func IntLt(a, b *Term) *Term  { return B.mk("<", SBool, a, b) }
+func IntLe(a, b *Term) *Term  { return B.mk("<=", SBool, a, b) }
+
+// BVToInt: unsigned or signed value of a bit-vector as a mathematical integer.
+func BVToInt(a *Term, signed bool) *Term {
+	if a.val != nil {
+		if signed {
+			return IntConst(signedVal(a.val, a.Width()))
+		}
+		return IntConst(a.val)
+	}
+	u := U2I(a)
+	if !signed {
+		return u
+	}
+	w := a.Width()
+	return Ite(BVSlt(a, BVInt(0, w)), IntSub(u, IntConst(new(big.Int).Lsh(big.NewInt(1), uint(w)))), u)
+}
+
+// U2I is the unsigned integer value of a bit-vector, as an uninterpreted function whose defining
+// facts (range, +, -, ite, constants, zero-extension, order) are instantiated per occurrence by
+// u2iAxioms. (z3 does not decide goals over the built-in bv2nat; cvc5 does, the axioms serve both.)
+func U2I(a *Term) *Term {
+	if a.val != nil {
+		return IntConst(a.val)
+	}
+	w := a.Width()
+	fn := B.DeclareFun(fmt.Sprintf("u2i.%d", w), []string{a.Sort}, SInt)
+	return B.App(fn, SInt, a)
+}
+
+func isU2I(t *Term) bool { return strings.HasPrefix(t.Op, "u2i.") && len(t.Args) == 1 }
+
+// u2iAxioms returns ground facts about every u2i application reachable from roots.
+func u2iAxioms(roots []*Term) []*Term {
+	var out []*Term
+	seenApp := map[int]bool{}
+	var work []*Term
+	seen := map[int]bool{}
+	var bvAtoms []*Term
+	var collect func(t *Term)
+	collect = func(t *Term) {
+		if seen[t.id] {
+			return
+		}
+		seen[t.id] = true
+		if isU2I(t) && !t.hasBV {
+			work = append(work, t)
+		}
+		switch t.Op {
+		case "bvult", "bvule", "bvugt", "bvuge":
+			if !t.hasBV {
+				bvAtoms = append(bvAtoms, t)
+			}
+		}
+		for _, a := range t.Args {
+			collect(a)
+		}
+	}
+	for _, r := range roots {
+		collect(r)
+	}
+	if len(work) == 0 {
+		return nil
+	}
+	two := func(w int) *Term { return IntConst(new(big.Int).Lsh(big.NewInt(1), uint(w))) }
+	depth := map[int]int{}
+	atomDone := map[int]bool{}
+	process := func() {
+		for len(work) > 0 {
+			app := work[len(work)-1]
+			work = work[:len(work)-1]
+			if seenApp[app.id] {
+				continue
+			}
+			seenApp[app.id] = true
+			a := app.Args[0]
+			w := a.Width()
+			d := depth[app.id]
+			out = append(out, IntLe(IntConst(big.NewInt(0)), app), IntLt(app, two(w)))
+			out = append(out, Eq(Eq(a, BVInt(0, w)), Eq(app, IntConst(big.NewInt(0)))))
+			sub := func(x *Term) *Term {
+				u := U2I(x)
+				if isU2I(u) && !seenApp[u.id] {
+					if _, ok := depth[u.id]; !ok {
+						depth[u.id] = d + 1
+					}
+					work = append(work, u)
+				}
+				return u
+			}
+			if d > 4 {
+				continue
+			}
+			switch {
+			case a.Op == "bvadd" && len(a.Args) == 2:
+				s := IntAdd(sub(a.Args[0]), sub(a.Args[1]))
+				out = append(out, Eq(app, Ite(IntLt(s, two(w)), s, IntSub(s, two(w)))))
+			case a.Op == "bvsub" && len(a.Args) == 2:
+				x, y := sub(a.Args[0]), sub(a.Args[1])
+				df := IntSub(x, y)
+				out = append(out, Eq(app, Ite(IntLe(y, x), df, IntAdd(df, two(w)))))
+			case a.Op == "ite":
+				out = append(out, Eq(app, Ite(a.Args[0], sub(a.Args[1]), sub(a.Args[2]))))
+			case strings.HasPrefix(a.Op, "(_ zero_extend"):
+				out = append(out, Eq(app, sub(a.Args[0])))
+			}
+		}
+	}
+	process()
+	// order: unsigned comparisons where one side already has a u2i application (or is a constant)
+	for changed := true; changed; {
+		changed = false
+		for _, at := range bvAtoms {
+			if atomDone[at.id] {
+				continue
+			}
+			x, y := at.Args[0], at.Args[1]
+			ux, uy := U2I(x), U2I(y)
+			known := func(u *Term) bool { return !isU2I(u) || seenApp[u.id] }
+			if !known(ux) && !known(uy) {
+				continue
+			}
+			if !isU2I(ux) && !isU2I(uy) {
+				atomDone[at.id] = true
+				continue
+			}
+			atomDone[at.id] = true
+			changed = true
+			for _, u := range []*Term{ux, uy} {
+				if isU2I(u) && !seenApp[u.id] {
+					depth[u.id] = 3
+					work = append(work, u)
+				}
+			}
+			process()
+			var rel *Term
+			switch at.Op {
+			case "bvult":
+				rel = IntLt(ux, uy)
+			case "bvule":
+				rel = IntLe(ux, uy)
+			case "bvugt":
+				rel = IntLt(uy, ux)
+			case "bvuge":
+				rel = IntLe(uy, ux)
+			}
+			out = append(out, Eq(at, rel))
+		}
+	}
+	return out
+}
+
